@@ -510,7 +510,8 @@ func (fc *FnCtx) wellTyped(v string, t types.Type, alloc string, depth int) stri
 		}
 		return mkAnd(parts...)
 	case *types.Interface, *types.Signature:
-		return "true"
+		// interface and function values are references to (boxed) objects that exist already
+		return "(and (<= 0 " + v + ") (<= " + v + " " + alloc + "))"
 	}
 	return "true"
 }
